@@ -14,7 +14,7 @@ def slow_get(self):
     r = orig_get(self)
     if threading.current_thread().name == "T1" and getattr(slow_get, "armed", False):
         slow_get.armed = False
-        in_get.set(); pause.wait()
+        in_get.set(); pause.wait(1.0)   # a long preemption; bounded so that a lock-based repair does not deadlock the demo
     return r
 StackedTransforms.get = slow_get
 out = {}
